@@ -404,7 +404,11 @@ func c07AuditFifoOnce(seed int64, b int, out *childOut, report bool) bool {
 	}
 	want, err := runRead(func(audits chan string, stop <-chan struct{}) {
 		for _, l := range lines {
-			audits <- l
+			select {
+			case audits <- l:
+			case <-time.After(30 * time.Second): // Read is gone; the barrier below reports it
+				return
+			}
 		}
 	}, -1)
 	if err != nil {
